@@ -1641,7 +1641,14 @@ class Interp:
             selfv = clos
         if self.call_stack.count(body["name"]) >= 2:
             return None
-        return self.run_fn(body, [selfv] + list(argvals), st)
+        try:
+            return self.run_fn(body, [selfv] + list(argvals), st)
+        finally:
+            if selfty.startswith("&") and st.frames:
+                after = st.frames[0].pop(slot, None)
+                if selfty.startswith("&mut") and after is not None and not veq(after, clos):
+                    # an FnMut closure that changes a by-value capture: the next call would have to see it
+                    raise Unsupported("closure mutates its own captured state")
 
     def havoc_call(self, st, args, dest_ty):
         """unknown callee: result Top, pointees of reference arguments havocked"""
